@@ -41,6 +41,7 @@ type (
 		Forall bool
 		Vars   []QVar
 		Body   Expr
+		Trig   []Expr // optional explicit trigger (one multi-pattern)
 	}
 	// EType is a type used as conversion target: uint32(x), os.FileMode(x)
 	EType struct{ T TypeExpr }
@@ -316,8 +317,19 @@ func (p *parser) expr() Expr {
 			}
 		}
 		p.expect("::")
+		// optional trigger: forall x T :: {t1, t2} body
+		var trig []Expr
+		if p.accept("{") {
+			for {
+				trig = append(trig, p.iff())
+				if !p.accept(",") {
+					break
+				}
+			}
+			p.expect("}")
+		}
 		body := p.expr()
-		return EQuant{Forall: t.text == "forall", Vars: vars, Body: body}
+		return EQuant{Forall: t.text == "forall", Vars: vars, Body: body, Trig: trig}
 	}
 	return p.iff()
 }
